@@ -1,6 +1,7 @@
 import Ecal.Drivers.Util
 import Ecal.Drivers.EvalCommon
 import Ecal.Model.Prims
+import Ecal.Model.FragB
 /-!
 Model side of C06 (payload formats: see go/cmd/harness/c06.go).
 
@@ -148,6 +149,15 @@ def heapCyclic : Result → Bool
     (List.range st.maps.size).any (fun r => cyclicFrom st [] (.map r))
   | _ => false
 
+/-- the program is inside the fragment of `eval_never_panics_partial`: the tree the real parser produced and
+    the trees of its embedded expressions pass `fragB` (then `Frag` holds and `Inv` holds for the initial state) -/
+def fragOK (prog : Program) : Bool :=
+  match prog.ast with
+  | some n =>
+    Ecal.FragB.fragB 400 n &&
+    prog.interp.all fun e => match e.2 with | .ast a => Ecal.FragB.fragB 400 a | .text _ => true
+  | none => false
+
 def hasCycleKf (label : String) : Bool := label == "cyclic"
 
 def runCase (payload : String) : String :=
@@ -181,7 +191,7 @@ def runCase (payload : String) : String :=
             | _ => .unsup w
           | c => c
         let nt := match c with | .err _ => "\tnt=1" | .errplain => "\tnt=1" | _ => ""
-        modeResult mode c log ++ nt
+        modeResult mode c log ++ nt ++ (if fragOK prog then "\tfrag=1" else "\tfrag=0")
   | ["K", _variant, _workers, prot, _n] =>
     -- a container shared by the main thread and a sink triggered without waiting: under `mutex` both finish;
     -- without it two ECAL threads use one Go map / slice unsynchronised (known finding; Go may or may not die)
